@@ -454,3 +454,195 @@ Proof.
   - reflexivity.
   - intros _ HDi. unfold nadd in HDi. rewrite N.eqb_refl in HDi. discriminate.
 Qed.
+
+(* setHead succeeded; the length / data phase may fail *)
+Lemma data_Rd fa sh s m D T i d n' now wsD fD sF :
+  Rd s m D T -> i < 1024 -> (lenN d + 4 + 4095) / 4096 < 256 ->
+  let need := (lenN d + 4 + 4095) / 4096 in
+  let o := getN (offs s) i in
+  (forall j, j < need -> getB (mark (used s) (sec_of o) (N.to_nat (cnt_of o)) false) (n' + j) = false) ->
+  n' + need < sector_limit ->
+  run_plan fa sh 4 [IOSeek; IOWrite (4096 * n') (be 4 (lenN d)); IOWrite (4096 * n' + 4) d] = (wsD, fD) ->
+  offs sF = setN (offs s) i (n' * 256 + need) -> tss sF = setN (tss s) i (now mod 2^32) ->
+  used sF = mark (mark (used s) (sec_of o) (N.to_nat (cnt_of o)) false) n' (N.to_nat need) true ->
+  hwm sF = N.max (hwm s) (n' + need) ->
+  img sF = rev ([mkwr (4096 + 4 * i) (be 4 (now mod 2^32)); mkwr (4 * i) (be 4 (n' * 256 + need))] ++ wsD) ++ img s ->
+  let r := if fD then WFErr else WFOk in
+  Rd sF (upd_m m i d r) (upd_D D i r) (upd_T T i r).
+Proof.
+  intros [HM HF] Hi Hneed need o Hfree Hlim Erp Eo Et Eu Eh Ei r.
+  destruct (need_bounds d) as (N1 & N2 & _). fold need in N1, N2.
+  pose proof (M_alloc s i need n' HM Hi N1 Hneed Hfree Hlim sF Eo Eu Eh) as HM'.
+  destruct (am_o' s i need n' Hi N1 Hneed Hfree Hlim) as (O1 & O2 & O3).
+  pose proof (am_n'_ge2 s i need n' HM Hi N1 Hneed Hfree Hlim) as N3.
+  pose proof (run_plan_within (4096 * n') (4096 * (n' + need)) fa sh
+    [IOSeek; IOWrite (4096 * n') (be 4 (lenN d)); IOWrite (4096 * n' + 4) d] 4
+    ltac:(intros p dd Hin; apply in_plan3 in Hin; destruct Hin as [[-> ->]|[-> ->]]; rewrite ?be4_lenN; lia)) as Hw.
+  rewrite Erp in Hw. cbn [fst] in Hw. apply Forall_rev in Hw.
+  set (hw := mkwr (4 * i) (be 4 (n' * 256 + need))) in *. set (tw := mkwr (4096 + 4 * i) (be 4 (now mod 2^32))) in *.
+  assert (Eg : rev ([tw; hw] ++ wsD) = rev wsD ++ [hw; tw]) by (rewrite rev_app_distr; reflexivity).
+  rewrite Eg in Ei. clear Eg. set (g := rev wsD ++ [hw; tw]) in *.
+  assert (Hs2 : Forall (safe2 s i) g).
+  { apply Forall_app. split.
+    - eapply Forall_impl; [|exact Hw]. intros w. apply (within_safe2 s i n' need w HM N3).
+      intros j Hj Hji Hoj. apply (am_apart s i need n' HM Hi N1 Hneed Hfree Hlim j Hj Hji Hoj).
+    - constructor; [apply (hdr_write_safe2 s i _ HM Hi)|constructor; [apply (ts_write_safe2 s i _ HM Hi)|constructor]]. }
+  assert (Hlg : log_ok g).
+  { apply Forall_app. split; [eapply Forall_impl; [|exact Hw]; intros w [A _]; exact A|].
+    constructor; [apply mkwr_ok|constructor; [apply mkwr_ok|constructor]]. }
+  destruct (upd_side m D T i d r True) as (SD & Sm & ST).
+  assert (Hhdr : word_at (g ++ img s) (4 * i) = n' * 256 + need).
+  { unfold g. rewrite <- app_assoc. rewrite word_at_app_leaves by (apply (within_8192 n' need _ (4 * i) N3 ltac:(lia) Hw)).
+    cbn [app]. unfold word_at, hw. rewrite <- (be4_len (n' * 256 + need)). rewrite bytes_at_cons_exact. apply unbe_be4. exact O1. }
+  assert (Hts : word_at (g ++ img s) (4096 + 4 * i) = now mod 2^32).
+  { unfold g. rewrite <- app_assoc. rewrite word_at_app_leaves by (apply (within_8192 n' need _ (4096 + 4 * i) N3 ltac:(lia) Hw)).
+    cbn [app]. unfold word_at. rewrite bytes_at_cons_skip by (unfold hw; rewrite wend_mkwr, be4_lenN; left; lia).
+    unfold tw. rewrite <- (be4_len (now mod 2^32)). rewrite bytes_at_cons_exact. apply unbe_be4. apply N.mod_lt. discriminate. }
+  split; [exact HM'|].
+  apply (Fd_step s m D T sF _ _ _ i g HF Ei Hs2 Hlg); auto.
+  - intros j Hj. rewrite Eo, getN_set_other by exact Hj. reflexivity.
+  - intros j Hj. rewrite Et, getN_set_other by exact Hj. reflexivity.
+  - intros _. rewrite Eo, getN_set_same. exact Hhdr.
+  - intros j Hj HTj. split; [apply (ST j HTj)|]. intros ->. rewrite Et, getN_set_same. exact Hts.
+  - intros _ HDi. destruct fD; subst r; cbn [upd_D upd_m] in *.
+    + unfold nadd in HDi. rewrite N.eqb_refl in HDi. discriminate.
+    + rewrite aupd_same. split; [discriminate|]. intros d0 E0. inversion E0; subst d0. clear E0.
+      pose proof (run_plan_done fa sh _ 4 ltac:(rewrite Erp; reflexivity)) as Hd. rewrite Erp in Hd. cbn [fst plan_writes] in Hd.
+      unfold content. rewrite Ei, Eo, getN_set_same, O2, O3. unfold g. subst wsD. cbn [rev app].
+      repeat split; try lia.
+      * unfold word_at. rewrite bytes_at_cons_skip by (rewrite wpos_mkwr; right; lia).
+        rewrite <- (be4_len (lenN d)). rewrite bytes_at_cons_exact. apply unbe_be4. change (2^32) with 4294967296. lia.
+      * apply bytes_at_cons_exact.
+      * destruct (N.eq_dec (lenN d) 0) as [E|E].
+        -- replace (4096 * n' + 4 + lenN d) with (4096 * n' + 4) by lia.
+           match goal with |- _ <= fsize (?a :: ?b :: ?f) =>
+             pose proof (fsize_cons_ge a (b :: f)); pose proof (fsize_cons_end b f) as H9 end.
+           rewrite wlen_mkwr, wend_mkwr, be4_lenN in H9. specialize (H9 ltac:(lia)). lia.
+        -- match goal with |- _ <= fsize (?a :: ?f) => pose proof (fsize_cons_end a f) as H9 end.
+           rewrite wlen_mkwr, wend_mkwr in H9. specialize (H9 E). lia.
+Qed.
+
+(* ---------- one (possibly failing) WriteSector ---------- *)
+Theorem write_fail_Rd fa sh s m D T x z d now sF wsF r :
+  Rd s m D T -> x < 32 -> z < 32 -> write_sector_fail fa sh s x z d now = (sF, wsF, r) ->
+  Rd sF (upd_m m (idx x z) d r) (upd_D D (idx x z) r) (upd_T T (idx x z) r).
+Proof.
+  intros HR Hx Hz. pose proof (idx_lt x z Hx Hz) as Hi. destruct HR as [HM HF].
+  unfold write_sector_fail. rewrite !flen_lenN. cbv zeta.
+  set (i := idx x z) in *. set (o := getN (offs s) i). set (need := (lenN d + 4 + 4095) / 4096).
+  destruct (need_bounds d) as (N1 & N2 & _). fold need in N1, N2.
+  destruct (N.leb_spec 256 need) as [Hbig|Hsmall].
+  { intros E. inversion E; subst. cbn [upd_m upd_D upd_T]. split; assumption. }
+  destruct (negb (sec_of o =? 0) && (cnt_of o =? need)) eqn:Einp.
+  - apply andb_true_iff in Einp. destruct Einp as [E1 E2].
+    assert (Hsec : sec_of o <> 0) by (destruct (N.eqb_spec (sec_of o) 0); [discriminate|auto]).
+    apply N.eqb_eq in E2.
+    destruct (run_plan fa sh 0 [IOSeek; IOWrite (4096 * sec_of o) (be 4 (lenN d)); IOWrite (4096 * sec_of o + 4) d]) as [ws f] eqn:Erp.
+    intros E. inversion E; subst sF wsF r. clear E.
+    apply (inplace_Rd fa sh s m D T i d ws f (conj HM HF) Hi Hsec E2 Hsmall Erp).
+  - set (u1 := mark (used s) (sec_of o) (N.to_nat (cnt_of o)) false).
+    assert (HE : forall k, hwm s <= k -> getB u1 k = false).
+    { intros k Hk. unfold u1. rewrite mark_spec, N2Nat.id.
+      destruct ((sec_of o <=? k) && (k <? sec_of o + cnt_of o)); [reflexivity|].
+      destruct (getB (used s) k) eqn:Eu; [|reflexivity]. pose proof (M_hw s HM k Eu). lia. }
+    destruct (find_space_spec (hwm s) u1 need HE (N.to_nat (hwm s + need + 2)) 0 0
+                ltac:(lia) ltac:(lia) ltac:(intros j Hj; lia) ltac:(lia)) as (n' & Hfs & Hfree & _ & Hn').
+    rewrite Hfs.
+    destruct (N.leb_spec sector_limit (n' + need)) as [Hout|Hin].
+    { intros E. inversion E; subst. cbn [upd_m upd_D upd_T]. split; assumption. }
+    rewrite run_planH.
+    destruct fa as [|[|[|[|fa]]]].
+    1-2: intros E; inversion E; subst sF wsF r; clear E; cbn [upd_m upd_D upd_T];
+         eapply (undo_Rd s m D T i need n' now [] _ (conj HM HF) Hi N1 Hsmall Hfree Hin (or_introl eq_refl));
+         cbn [offs tss used hwm img rev app]; reflexivity.
+    1-2: intros E; inversion E; subst sF wsF r; clear E; cbn [upd_m upd_D upd_T];
+         eapply (undo_Rd s m D T i need n' now [mkwr (4096 + 4 * i) (be 4 (now mod 2^32))] _ (conj HM HF) Hi N1 Hsmall Hfree Hin (or_intror eq_refl));
+         cbn [offs tss used hwm img rev app]; reflexivity.
+    destruct (run_plan (S (S (S (S fa)))) sh 4 [IOSeek; IOWrite (4096 * n') (be 4 (lenN d)); IOWrite (4096 * n' + 4) d]) as [wsD fD] eqn:Erp.
+    intros E. inversion E; subst sF wsF r. clear E.
+    eapply (data_Rd (S (S (S (S fa)))) sh s m D T i d n' now wsD fD _ (conj HM HF) Hi Hsmall Hfree Hin Erp);
+      cbn [offs tss used hwm img]; reflexivity.
+Qed.
+
+(* ---------- what the invariant gives ---------- *)
+(* a chunk whose last write succeeded reads back through the same object ... *)
+Theorem clean_reads s m D T x z : Rd s m D T -> x < 32 -> z < 32 -> D (idx x z) = false ->
+  read_sector s x z = spec_read m (idx x z).
+Proof. intros HR Hx Hz HD. apply (read_clean s m D T _ HR (idx_lt x z Hx Hz) HD). Qed.
+
+(* ... and after a reopen *)
+Theorem clean_reads_reopen s m D T : Rd s m D T ->
+  exists sl, load (img s) = LOk sl /\ img sl = img s /\
+    forall x z, x < 32 -> z < 32 -> D (idx x z) = false -> read_sector sl x z = spec_read m (idx x z).
+Proof.
+  intros [HM HF]. pose proof (F_log _ _ _ _ HF) as Hlog. pose proof (F_size _ _ _ _ HF) as Hsz.
+  unfold load. assert ((fsize (img s) <? 8192) = false) as -> by lia.
+  eexists. split; [reflexivity|]. split; [reflexivity|].
+  intros x z Hx Hz HD. pose proof (idx_lt x z Hx Hz) as Hi. unfold read_sector. cbn [img offs].
+  rewrite load_tab_spec by assumption. rewrite N.add_0_l, (F_hdr _ _ _ _ HF _ Hi).
+  apply (read_clean s m D T _ (conj HM HF) Hi HD).
+Qed.
+
+(* ---------- ALL histories of successful and failing writes and of reads ---------- *)
+Inductive fop := FWrite (fa : nat) (sh : N) (x z : N) (d : list N) (now : N) | FRead (x z : N).
+Definition fop_ok (o : fop) : Prop := match o with FWrite _ _ x z _ _ | FRead x z => x < 32 /\ z < 32 end.
+
+(* the model, and next to it the specification: a map plus the set of chunks whose last write failed *)
+Fixpoint frun (s : st) (m : amap) (D T : nset) (ops : list fop) : st * amap * nset * nset * list (option (rres * rres)) :=
+  match ops with
+  | [] => (s, m, D, T, [])
+  | FWrite fa sh x z d now :: t =>
+      let '(sF, _, r) := write_sector_fail fa sh s x z d now in
+      frun sF (upd_m m (idx x z) d r) (upd_D D (idx x z) r) (upd_T T (idx x z) r) t
+  | FRead x z :: t =>
+      let '(s', m', D', T', l) := frun s m D T t in
+      (s', m', D', T', (if D (idx x z) then None else Some (read_sector s x z, spec_read m (idx x z))) :: l)
+  end.
+
+Theorem frun_correct : forall ops s m D T s' m' D' T' l,
+  Rd s m D T -> Forall fop_ok ops -> frun s m D T ops = (s', m', D', T', l) ->
+  Rd s' m' D' T' /\ Forall (fun p => match p with Some (got, want) => got = want | None => True end) l.
+Proof.
+  induction ops as [|op t IH]; intros s m D T s' m' D' T' l HR Hok; cbn [frun].
+  - intros E. inversion E; subst. split; [exact HR|constructor].
+  - inversion Hok as [|? ? Ho Ht]; subst. destruct op as [fa sh x z d now|x z]; cbn [fop_ok] in Ho; destruct Ho as [Hx Hz].
+    + destruct (write_sector_fail fa sh s x z d now) as [[sF wsF] r] eqn:Ew.
+      intros E. apply (IH _ _ _ _ _ _ _ _ _ (write_fail_Rd fa sh s m D T x z d now sF wsF r HR Hx Hz Ew) Ht E).
+    + destruct (frun s m D T t) as [[[[s1 m1] D1] T1] l1] eqn:Er.
+      intros E. inversion E; subst. destruct (IH _ _ _ _ _ _ _ _ _ HR Ht Er) as [A B].
+      split; [exact A|]. constructor; [|exact B].
+      destruct (D (idx x z)) eqn:ED; [exact I|]. apply (clean_reads s m D T x z HR Hx Hz ED).
+Qed.
+
+Lemma Rd_create : Rd create aempty nnone nnone.
+Proof.
+  pose proof R_create as HR. split.
+  - constructor.
+    + intros j Hj H. unfold create in H. cbn [offs] in H. rewrite getN_empty in H. contradiction.
+    + intros j Hj. unfold create. cbn [offs]. rewrite getN_empty. reflexivity.
+    + intros i k Hi H. unfold create in H. cbn [offs] in H. rewrite getN_empty in H. contradiction.
+    + apply (R_used01 _ _ HR).
+    + intros i j k Hi Hj Hij H. unfold create in H. cbn [offs] in H. rewrite getN_empty in H. contradiction.
+    + apply (R_hw _ _ HR).
+    + apply (R_hwlim _ _ HR).
+  - constructor.
+    + apply (R_log _ _ HR).
+    + apply (R_size _ _ HR).
+    + apply (R_hdr _ _ HR).
+    + intros i Hi _. apply (R_ts _ _ HR i Hi).
+    + intros i Hi _ _. unfold create. cbn [offs]. apply getN_empty.
+    + intros i d Hi _ H. discriminate.
+Qed.
+
+(* what Rd means for a user of the file, in one statement *)
+Theorem Rd_gives s m D T : Rd s m D T ->
+  (forall i j k, i < 1024 -> j < 1024 -> i <> j -> hdr (img s) i <> 0 -> hdr (img s) j <> 0 ->
+     run_of (hdr (img s) i) k -> run_of (hdr (img s) j) k -> False) /\
+  (forall x z, x < 32 -> z < 32 -> D (idx x z) = false -> read_sector s x z = spec_read m (idx x z)) /\
+  (exists sl, load (img s) = LOk sl /\ img sl = img s /\
+     forall x z, x < 32 -> z < 32 -> D (idx x z) = false -> read_sector sl x z = spec_read m (idx x z)).
+Proof.
+  intros HR. split; [apply (file_runs_disjoint s m D T HR)|]. split.
+  - intros x z Hx Hz HD. apply (clean_reads s m D T x z HR Hx Hz HD).
+  - apply (clean_reads_reopen s m D T HR).
+Qed.
